@@ -20,6 +20,11 @@
 (*  inf   programs whose types would have to be infinite                    *)
 (*  tree  module trees: route (memory FileSpec / on disk), root present or  *)
 (*        not, a subset of the file slots, one content kind for all files   *)
+(*  imp   every sequence of <= implen import statements (nimp statements:   *)
+(*        items, modules, lists, through aliases of the other statements,   *)
+(*        missing targets, statements that wait for each other in a cycle)  *)
+(*        written at place pl (module level of pkg / of a sub-module /      *)
+(*        inside a function body) of a fixed package                        *)
 (*                                                                          *)
 (* A descriptor is [fam, p] with p a tuple of numbers; lib/checks/c06.py    *)
 (* renders it to source text / files (representation mapping only).         *)
@@ -88,6 +93,8 @@ LitInputs(F) == {LitInput(F, kind, term, pre, t) : kind \in 1..2, term \in 0..1,
 InfInputs(F) == {DX("inf", <<v, st>> \o w, "report", <<>>) : v \in 1..F.ninfvar, st \in 1..2,
                                                            w \in Tuples(1..F.nwrap, F.infdepth)}
 
+ImpInputs(F) == {D("imp", <<pl>> \o t) : pl \in 1..F.nimpplace, t \in Tuples(1..F.nimp, F.implen) \ {<<>>}}
+
 (* x is an input of one of the families (written as a disjunction: the sets are never united) *)
 IsInput(F, x) ==
   \/ \E i \in 1..Len(F.plans) : x \in SeqPlan(F, F.plans[i])
@@ -102,6 +109,7 @@ IsInput(F, x) ==
   \/ x \in {y \in LitInputs(F) : F.litfull = 1 \/ (IF y.p[2] = 0 THEN y.p[3] = 1 /\ Len(y.p) <= 5
                                                      ELSE y.p[3] = 1 \/ y.p[1] = 2)}
   \/ x \in InfInputs(F)
+  \/ x \in ImpInputs(F)
 
 (* candidate spans of an abstract report over a file of 3 bytes "a" + 2-byte character *)
 Cand == {[file |-> 0, len |-> 3, start |-> s, end |-> e, ok |-> (s \in {0, 1, 3} /\ e \in {0, 1, 3})] : s \in 0..4, e \in 0..4}
